@@ -1,1 +1,30 @@
-From QV Require Import Base Fields SrcFacts Msg SrcDecisions Sim Prober Hostname Provider ProviderSpec.
+(* Properties_C11.v — a confirmed provider answers questions about its records correctly. *)
+From QV Require Import Base Fields SrcFacts Msg SrcDecisions Sim Prober Hostname Provider ProviderSpec ProviderProofs.
+Local Open Scope Z_scope.
+
+(* For every provider state and every message: what ProviderPrivate::onMessageReceived sends is exactly what the
+   declarative specification spec_prov_reply says: nothing when not confirmed, for responses, or when no PTR/SRV/TXT
+   question names a served record; otherwise exactly one reply with (enumeration PTR if asked) (service PTR if asked
+   and not listed as known) (SRV and TXT if the PTR is sent, or asked and not listed as known), the records as
+   currently published; addressed by the reply rule (group of the querier's family for port 5353, otherwise unicast
+   to address and port; transaction id copied; response flag set).  Question matching and known-answer conditions
+   are the ones read from provider.cpp (SrcDecisions), Record::operator== is tied to "same name, type and data". *)
+Theorem C11_answers p m :
+  prov_on_message p m =
+  match spec_prov_reply (pv_confirmed p) (pv_browse p) (pv_ptr p) (pv_srv p) (pv_txt p) m with
+  | Some r => [ESend r] | None => [] end.
+Proof. exact (prov_reply_spec p m). Qed.
+Print Assumptions C11_answers.
+
+(* non-vacuity: PTR question with the SRV listed as known -> PTR, SRV and TXT are all sent (SRV accompanies the PTR) *)
+Example C11_example :
+  let ty := Some [95;120;46]%N in let i := Some [105;46;95;120;46]%N in
+  let ptr := set_target i (set_type 12 (set_name ty default_record)) in
+  let srv := set_port 80 (set_type 33 (set_name i default_record)) in
+  let txt := set_type 16 (set_name i default_record) in
+  let m := mkMessage (A4 1) 5353 9 false false [mkQuery ty 12 false] [srv] in
+  match spec_prov_reply true default_record ptr srv txt m with
+  | Some r => length (m_records r) = 3%nat /\ m_addr r = A4 3758096635
+  | None => False
+  end.
+Proof. vm_compute. auto. Qed.
